@@ -27,6 +27,11 @@ BaseBundle(k) ==
                                      Ex(U1, <<H(S_Variants, VAR1), H(S_VariantKey, <<102,114>>)>>, 24) >>)
     [] k = 3 -> B("b2", FALSE, FALSE, << Ex(U1, <<>>, 0) >>)
     [] k = 4 -> B("b2", TRUE, FALSE, <<>>)
+    \* a response whose encoded length is exactly 256 (19 01 00) and a second one starting at offset 256+1: cutting the
+    \* last byte(s) of the index leaves an argument whose missing low bytes would read as zero
+    [] k = 5 -> LET n == CHOOSE m \in 150..250 : Len(RespItem(Ex(U1, <<CT>>, m))) = 256 IN B("b2", FALSE, FALSE, << Ex(U1, <<CT>>, n) >>)
+    [] k = 6 -> LET n == CHOOSE m \in 150..250 : Len(RespItem(Ex(U1, <<CT>>, m))) = 255 IN
+                B("b1", TRUE, FALSE, << Ex(U1, <<CT>>, n), Ex(U2, <<CT>>, CHOOSE m \in 150..250 : Len(RespItem(Ex(U2, <<CT>>, m))) = 256) >>)
 
 Big == { U64Zero, U64(1), <<0,0,0,1,0,0,0,0>>, <<127,255,255,255,255,255,255,255>>, <<128,0,0,0,0,0,0,0>>,
          <<255,255,255,255,255,255,255,254>>, <<255,255,255,255,255,255,255,255>> }
@@ -57,6 +62,10 @@ Muts(b) ==
   \cup { [kind |-> "nsec", i |-> d, j |-> 0, v |-> U64Zero] : d \in {n - 1, n + 1, 0} }
   \cup { [kind |-> "slcount", i |-> d, j |-> 0, v |-> U64Zero] : d \in {2 * n - 1, 2 * n + 1, 2 * n + 2, 0} }
   \cup { [kind |-> "trunc", i |-> c, j |-> 0, v |-> U64Zero] : c \in 0..(fsize - 1) }
+  \* a section cut short by k bytes with the table adjusted consistently: the CBOR nested in the section ends inside an item
+  \cup { [kind |-> "sectrunc", i |-> i, j |-> k, v |-> U64Zero] : i \in 1..n, k \in 1..3 }
+  \* the same for the section-lengths byte string itself (its byte-string head adjusted)
+  \cup { [kind |-> "sltrunc", i |-> 0, j |-> k, v |-> U64Zero] : k \in 1..3 }
 
 Apply(b, m) ==
   LET t == Table(b)  bd == Bodies(b)  n == Len(t) IN
@@ -77,6 +86,10 @@ Apply(b, m) ==
     [] m.kind = "nsec" -> Build(b, t, 2 * n, m.i, bd)
     [] m.kind = "slcount" -> Build(b, t, m.i, n, bd)
     [] m.kind = "trunc" -> SubSeq(Plain(b), 1, m.i)
+    [] m.kind = "sectrunc" -> LET cut == IF Len(bd[m.i]) >= m.j THEN SubSeq(bd[m.i], 1, Len(bd[m.i]) - m.j) ELSE <<>> IN
+                               Build(b, [t EXCEPT ![m.i].len = U64(Len(cut))], 2 * n, n, [bd EXCEPT ![m.i] = cut])
+    [] m.kind = "sltrunc" -> LET sl == SectionLengthsU(t, 2 * n) IN
+                              Assemble(b.ver, b.primary, SubSeq(sl, 1, Len(sl) - m.j), n, Concat(bd))
 
 Init == base \in Bases /\ mut = [kind |-> "init", i |-> 0, j |-> 0, v |-> U64Zero] /\ file = <<>>
 Next == /\ mut.kind = "init"
